@@ -277,8 +277,14 @@ impl<'a> ShuffledStealers<'a> {
             // randomly selected worker becomes the LSB.
             let candidate_count = stealers.len();
             let lower_bits = candidates & ((1 << next_candidate) - 1);
-            let candidates =
-                (candidates >> next_candidate) | (lower_bits << (candidate_count - next_candidate));
+            // No rotation is needed when the first candidate is already the
+            // LSB; this also avoids a shift by `usize::BITS` when the pool
+            // has `usize::BITS` workers.
+            let candidates = if next_candidate == 0 {
+                candidates
+            } else {
+                (candidates >> next_candidate) | (lower_bits << (candidate_count - next_candidate))
+            };
 
             (candidates, next_candidate)
         };
